@@ -98,6 +98,17 @@ impl OriginZeroLine {
         2 * ((self.0 + track_counts.negative_implicit as i16) as usize)
     }
 
+    /// Like `into_track_vec_index`, but returns `None` for a grid line that lies outside of the implicit grid.
+    /// Used for absolutely positioned items, for which such a line is treated as `auto`.
+    pub(crate) fn try_into_track_vec_index(self, track_counts: TrackCounts) -> Option<usize> {
+        if self.0 < -(track_counts.negative_implicit as i16)
+            || self.0 > (track_counts.explicit + track_counts.positive_implicit) as i16
+        {
+            return None;
+        }
+        Some(self.into_track_vec_index(track_counts))
+    }
+
     /// The minimum number of negative implicit track there must be if a grid item starts at this line.
     pub(crate) fn implied_negative_implicit_tracks(self) -> u16 {
         if self.0 < 0 {
